@@ -65,9 +65,9 @@ fn ref_encode_frame(data: &[u8], bpp: usize, rowlen: usize, types: &[u8]) -> Vec
 }
 
 #[derive(Clone, Copy)]
-struct A85Style { use_z: bool, wrap: usize, ws: u8, eod: bool }
+pub struct A85Style { pub use_z: bool, pub wrap: usize, pub ws: u8, pub eod: bool }
 /// ISO 32000-1 §7.4.3 encoder
-fn ref_a85_encode(x: &[u8], st: A85Style) -> Vec<u8> {
+pub fn ref_a85_encode(x: &[u8], st: A85Style) -> Vec<u8> {
     let mut digits: Vec<u8> = vec![];
     for g in x.chunks(4) {
         let mut v: u64 = 0;
@@ -103,7 +103,7 @@ fn ext_inflate(input: &[u8]) -> Vec<u8> {
     if !input.is_empty() { let _ = flate2::read::ZlibDecoder::new(input).read_to_end(&mut out); }
     out
 }
-fn lzw_encode(x: &[u8], early: bool) -> Vec<u8> {
+pub fn lzw_encode(x: &[u8], early: bool) -> Vec<u8> {
     use weezl::{encode::Encoder, BitOrder};
     let mut e = if early { Encoder::with_tiff_size_switch(BitOrder::Msb, 8) } else { Encoder::new(BitOrder::Msb, 8) };
     e.encode(x).unwrap()
